@@ -27,12 +27,13 @@ ASSUMPTIONS = ["the read instant of a record is observed by wrapping ServiceInfo
 T = "_http._tcp.local."
 NAME = "thing." + T
 HOSTS = ["thing-host.local.", "other-host.local."]
-ADDRS = {"A": [b"\x0a\x00\x00\x05", b"\x0a\x00\x00\x06"], "AAAA": [b"\xfe\x80" + b"\0" * 13 + b"\x05"]}
+ADDRS = {"A": [b"\x0a\x00\x00\x05", b"\x0a\x00\x00\x06"], "AAAA": [b"\xfe\x80" + b"\0" * 13 + b"\x05", b"\xfd\x00" + b"\0" * 13 + b"\x06"]}
 
 
 def floors(tier):
     q = tier == "quick"
-    return {"c18.deadline": 8000 if q else 1000000, "c18.model": 8000 if q else 1000000, "c18.hook_reads": 15000 if q else 2000000, "c18.transmissions": 8000 if q else 1000000}
+    return {"c18.deadline": 8000 if q else 1000000, "c18.model": 8000 if q else 1000000, "c18.hook_reads": 15000 if q else 2000000, "c18.transmissions": 8000 if q else 1000000,
+            "c18.views": 8000 if q else 1000000, "c18.questions.queries": 5000 if q else 600000}
 
 
 def plan(tier, seed):
@@ -100,7 +101,7 @@ def rec_for(kind: str, host: str, variant: int = 0) -> Tuple:
         return ("TXT", NAME, (b"\x03v=%d" % variant,))
     if kind == "A":
         return ("A", host, (ADDRS["A"][variant % 2],))
-    return ("AAAA", host, (ADDRS["AAAA"][0],))
+    return ("AAAA", host, (ADDRS["AAAA"][variant % 2],))
 
 
 def run_scenario(res: Result, seed: int) -> None:
@@ -128,7 +129,7 @@ def run_scenario(res: Result, seed: int) -> None:
             plan_inj: List[Tuple[float, List[Tuple[Tuple, int, bool]]]] = []
             for kind, st in sc["state"].items():
                 hostn = sc["srv_host"] if kind == "SRV" else HOSTS[0]
-                variants = [0, 1] if (kind == "A" and sc["multi_a"]) else [0]
+                variants = [0, 1] if (kind in ("A", "AAAA") and sc["multi_a"]) else [0]
                 for v in variants:
                     ident = rec_for(kind, hostn if kind == "SRV" else HOSTS[0], v)
                     if st == "fresh":
@@ -154,6 +155,15 @@ def run_scenario(res: Result, seed: int) -> None:
                 sim.net.inject(host, R.build_response(recs, id_=200 + i), ("10.0.0.9", 5353), delay_ms=a["off"])
             qt = {None: None, "QU": DNSQuestionType.QU, "QM": DNSQuestionType.QM}[sc["forced"]]
             READS.clear()
+            out["send_cache"] = {}
+
+            out["send_reads"] = {}
+
+            def on_tx(entry: Dict[str, Any]) -> None:
+                out["send_reads"][entry["i"]] = len(READS)       # reads logged so far: the ones that precede this send
+                out["send_cache"][entry["i"]] = {lname: [(R.ident_of_lib(r), r.created, r.ttl) for r in zc.cache.entries_with_name(lname)]
+                                                 for lname in (NAME.lower(), HOSTS[0], HOSTS[1])}
+            sim.net.on_transmit = on_tx
             out["mark"] = len(sim.net.trace)
             out["S"] = sim.now_ms()
             out["cache_at_S"] = {lname: [(R.ident_of_lib(r), r.created, r.ttl) for r in zc.cache.entries_with_name(lname)]
@@ -166,6 +176,21 @@ def run_scenario(res: Result, seed: int) -> None:
             out["fields"] = {"server": info.server, "port": info.port, "priority": info.priority, "weight": info.weight, "text": info.text,
                              "addrs": set(info.addresses_by_version(__import__("zeroconf").IPVersion.All))}
             out["reads"] = [dict(x) for x in READS if x["info"] == id(info)]
+            out["reads_all"] = [dict(x, mine=(x["info"] == id(info))) for x in READS]
+            sim.net.on_transmit = None
+            zmod = __import__("zeroconf")
+            out["views"] = {
+                "addresses": list(info.addresses),
+                "v4": list(info.addresses_by_version(zmod.IPVersion.V4Only)),
+                "v6": list(info.addresses_by_version(zmod.IPVersion.V6Only)),
+                "all": list(info.addresses_by_version(zmod.IPVersion.All)),
+                "parsed": list(info.parsed_addresses()),
+                "parsed_scoped": list(info.parsed_scoped_addresses()),
+                "ip_all": [a.packed for a in info.ip_addresses_by_version(zmod.IPVersion.All)],
+                "dns_addresses": sorted((r.type, r.address, r.name.lower()) for r in info.dns_addresses()),
+                "server": info.server,
+                "name": info.name,
+            }
             out["end_mark"] = len(sim.net.trace)
             await sim.sleep_ms(300)
             await azc.async_close()
@@ -247,6 +272,59 @@ def analyse(res: Result, sim: simnet.Sim, sc: Dict[str, Any], out: Dict[str, Any
             ok = any(i[0] == "SRV" and i[1] == key and i[2][3] == f["server"].lower() and c + 1000.0 * ttl > S for i, c, ttl in universe)
             if not ok:
                 viol("c18.model", "srv_from_expired_record", "server %r reported although every SRV naming it had expired before the lookup started" % (f["server"],))
+    # ---- the address accessors are views of one list: they must agree with each other
+    import ipaddress
+    res.mon("c18.views")
+    v = out["views"]
+    allv = v["all"]
+    problems = []
+    if len(set(allv)) != len(allv):
+        problems.append("duplicate address in addresses_by_version(All): %r" % (allv,))
+    if v["addresses"] != v["v4"] or v["v4"] != [a for a in allv if len(a) == 4] or v["v6"] != [a for a in allv if len(a) == 16]:
+        problems.append("per-version lists are not the split of the full list: v4=%r v6=%r all=%r addresses=%r" % (v["v4"], v["v6"], allv, v["addresses"]))
+    if v["ip_all"] != allv:
+        problems.append("ip_addresses_by_version differs from addresses_by_version: %r vs %r" % (v["ip_all"], allv))
+    if v["parsed"] != [str(ipaddress.ip_address(a)) for a in allv]:
+        problems.append("parsed_addresses %r is not the text form of %r" % (v["parsed"], allv))
+    if [p.split("%")[0] for p in v["parsed_scoped"]] != v["parsed"]:
+        problems.append("parsed_scoped_addresses %r differs from parsed_addresses %r" % (v["parsed_scoped"], v["parsed"]))
+    want_dns = sorted((1 if len(a) == 4 else 28, a, (v["server"] or v["name"]).lower()) for a in allv)
+    if v["dns_addresses"] != want_dns:
+        problems.append("dns_addresses() %r differs from the address list %r" % (v["dns_addresses"], want_dns))
+    for pr in problems[:1]:
+        viol("c18.views", "address_views_disagree", pr)
+    # ---- questions: SRV/TXT are asked only while no answer with more than half its TTL is held; A/AAAA go to the known target
+    res.mon("c18.questions")
+    for e in sim.net.trace[out["mark"]:out["end_mark"]]:
+        mm = wire.parse(e["data"], strict=True)
+        if mm.is_response:
+            continue
+        snap = out["send_cache"].get(e["i"])
+        if snap is None:
+            continue
+        t = e["t"]
+        res.mon("c18.questions.queries")
+        def fresh(lname: str, kind: str) -> bool:
+            return any(x[0][0] == kind and x[1] + 500.0 * x[2] > t for x in snap.get(lname, []))
+        qset = {(q.name.text().lower(), q.type) for q in mm.questions}
+        is_qu = any(q.cls & 0x8000 for q in mm.questions)
+        for kind, tnum in (("SRV", 33), ("TXT", 16)):
+            asked = (key, tnum) in qset
+            if asked and fresh(key, kind):
+                viol("c18.questions", "asked_although_answer_held", "%s question sent at +%.1f ms although a %s record with more than half its TTL is cached" % (kind, t - S, kind), qtype=kind)
+            if not asked and is_qu and not fresh(key, kind):
+                viol("c18.questions", "question_missing", "QU query at +%.1f ms lacks the %s question although no usable %s answer is cached" % (t - S, kind, kind), qtype=kind)
+        # the info object's idea of the target host at this instant: last unexpired SRV it was handed
+        target = None
+        for rd in out["reads_all"][:out["send_reads"].get(e["i"], 0)]:
+            if rd["mine"] and rd["ident"][0] == "SRV" and rd["ident"][1] == key and rd["created"] + 1000.0 * rd["ttl"] > rd["now"]:
+                target = rd["ident"][2][3]
+        want_owner = (target or key)
+        for qn, qt_ in qset:
+            if qt_ in (1, 28) and qn != want_owner:
+                viol("c18.questions", "address_question_for_wrong_host", "address question for %r at +%.1f ms, the SRV target known then is %r" % (qn, t - S, want_owner))
+        if is_qu and not ({(want_owner, 1), (want_owner, 28)} <= qset):
+            viol("c18.questions", "question_missing", "QU query at +%.1f ms lacks an address question for %r: %r" % (t - S, want_owner, sorted(qset)), qtype="addr")
     # ---- transmissions
     res.mon("c18.transmissions")
     sent = []
